@@ -332,7 +332,7 @@ def render(p):
         lines.append("  %s: %s" % (json.dumps(s.name), yaml_flow(step_tree(s))))
     if p.legacy_output is not None:
         lines.append("output: " + yaml_flow(p.legacy_output))
-    if p.outputs:
+    if p.outputs and p.legacy_output is None:  # with the deprecated single `output:` the reference still reads p.outputs["success"]
         lines.append("outputs:")
         for k, v in p.outputs.items():
             lines.append("  %s: %s" % (json.dumps(k), yaml_flow(v)))
